@@ -1,6 +1,8 @@
 /-
   Driver/C18.lean — line-protocol front end of Model/Traceparent.lean.
-    stream `c18` : (c18 (decisions B…) OUTSIDE P…)
+    stream `c18` : (c18 VARIANT HASSAMPLER (decisions B…) OUTSIDE P…)   VARIANT ::= concrete | boxdyn | arcdyn | assert | slot
+        (how the traceparent ctxt is held: plain, boxed / shared erased, AssertInternal-wrapped, or as the erased ctxt of an
+         AmbientSlot runtime — the model is the same for all: wrappers are transparent, property C03)
         P ::= event | (span P…) | (spant P…) | (spana P…) | (push (TRACE SPAN FLAGS) P…) | (carry P…)
         TRACE, SPAN ::= none | N with N ≥ 1000000 (ids that arrive in headers; rng-drawn ids are the counter 1,2,3…)
     → the observation log, oldest first, then `calls=N cur=(T S F)`
@@ -61,15 +63,16 @@ def countSpans : List Obs → Nat
 
 def runC18 (line : String) : String :=
   match Sexp.parse line with
-  | some (.list (.atom "c18" :: .list (.atom "decisions" :: ds) :: outside :: ps)) =>
-    match ds.mapM Sexp.bool?, outside.bool?, progs? ps with
-    | some ds, some outside, some ps =>
-      let e := runList ⟨ds, outside⟩ ps env0
+  | some (.list (.atom "c18" :: .atom variant :: hs :: .list (.atom "decisions" :: ds) :: outside :: ps)) =>
+    match hs.bool?, ds.mapM Sexp.bool?, outside.bool?, progs? ps with
+    | some hs, some ds, some outside, some ps =>
+      if !(["concrete", "boxdyn", "arcdyn", "assert", "slot"].contains variant) then "bad-op" else
+      let e := runList ⟨hs, ds, outside⟩ ps env0
       let obs := e.out.reverse
       let nspan := countSpans obs
       let sig := if obs.length ≤ 1 then "trivial" else s!"spans={min nspan 6},calls={min e.calls 4},push={(line.splitOn "push").length - 1 |> min 3},thread={(line.splitOn "spant").length + (line.splitOn "carry").length - 2 |> min 3}"
       s!"{" ".intercalate (obs.map showObs)} calls={e.calls} cur={showTP (current e.st)}\t{sig}"
-    | _, _, _ => "bad-op"
+    | _, _, _, _ => "bad-op"
   | _ => "bad-op"
 
 def streams : List (String × (String → String)) := [("c18", runC18)]
